@@ -54,7 +54,7 @@ PROPS = {
                     "induction over rounds gives every prefix and every chunking"),
     "C05": dict(
         units=[("contracts.frames", has("F1.pool", "F2"))],
-        bounded=[("bounded/pool.py", "C05")],
+        bounded=[("bounded/pool.py", "C05"), ("bounded/wrappers.py", "C05")],
         trusted=[L1_BASE],
         assumptions=["third-party estimators do not modify the arrays they are given", "match_signature wrappers are transparent"],
         explanation="parameter frame (F1), argument frame (F2) and model frame (F2') proved for every method / query of every pool strategy class found in the package"),
